@@ -39,18 +39,19 @@
      st = "file" (a file, or absent when v = <<>>), "dir" (a directory of files holding the same
      lines - accepted for M, U, V by non-strict instances only), "syntax" (unparsable content).
      lines:  P: parent names;  K: [k \in {"sys","nsys","set","nset","wild"}, a];
-             M, U, V: [neg, a];  E: [var, toks], a token is [neg, kind \in {"flag","star","ref"}, name].
+             M, U, V: [neg, a];  E: [var, toks], a token is [neg, kind \in {"flag","star","ref"}, name];
+             A (package.accept_keywords): [a, kws].
 
    Node instances are keyed <<name, strict>>: ProfileStack.stack creates them through
    _autodetect_and_create (strict = T.strict), ProfileNode.parents (the default_env recursion)
    through ProfileNode(path) (strict = TRUE); with a pms repository both are the same object.   *)
-EXTENDS Integers, Sequences, FiniteSets
+EXTENDS Integers, Sequences, FiniteSets, TLC
 
 Inc == INSTANCE Incremental
 
 Root == "ROOT"
-Files == {"P", "K", "M", "U", "V", "E"}
-Recursable == {"M", "U", "V"}          \* load_property(..., allow_recurse=True)
+Files == {"P", "K", "M", "U", "V", "E", "A"}
+Recursable == {"M", "U", "V", "A"}        \* load_property(..., allow_recurse=True)
 SyntaxFiles == {"K", "V", "E"}         \* files for which unparsable content is an error (not a logged line)
 Incrementals == {"ACCEPT_KEYWORDS", "ACCEPT_LICENSE", "CONFIG_PROTECT", "CONFIG_PROTECT_MASK", "FEATURES",
                  "IUSE_IMPLICIT", "PROFILE_ONLY_VARIABLES", "USE", "USE_EXPAND", "USE_EXPAND_HIDDEN",
@@ -108,6 +109,13 @@ Collapse(trips) == LET f[k \in 0..Len(trips)] ==
                    IN f[Len(trips)]
 CollapseOver(G, stack, what) == Collapse([k \in DOMAIN stack |-> TripOf(G, stack[k], what)])
 Folded(G, n, what) == CollapseOver(G, FullStack(G, n), what)
+
+\* package.accept_keywords: the entries of every stack node (ROOT included), in stack order; one line = one entry
+KeywordsOver(G, stack) ==
+  LET f[k \in 0..Len(stack)] == IF k = 0 THEN <<>>
+                                ELSE f[k - 1] \o [j \in DOMAIN G.c[stack[k]]["A"].v |->
+                                                    [a |-> G.c[stack[k]]["A"].v[j].a, kws |-> DedupeFirst(G.c[stack[k]]["A"].v[j].kws)]]
+  IN f[Len(stack)]
 
 NonEmpty(t) == t.neg # {} \/ t.pos # {}
 PairsOver(G, stack, what) ==
@@ -170,23 +178,25 @@ UseMatches(obs, u) == \E q \in Orderings(u.blocks) : obs = u.head \o JoinAll(q)
 
 (* ------------------------------------------------------------------------------------------- *)
 (* (4) objects, node instances, what has been read                                             *)
-StackAttrs == {"stack", "system", "profile_set", "masks", "unmasks", "incr_masks", "incr_unmasks", "provided"}
+StackAttrs == {"stack", "system", "profile_set", "masks", "unmasks", "incr_masks", "incr_unmasks", "provided", "accept_keywords"}
 EnvAttrs   == {"default_env", "use_expand", "use"}
 AllAttrs   == StackAttrs \cup EnvAttrs
 FileOf(a) == CASE a \in {"masks", "incr_masks"} -> "M" [] a \in {"unmasks", "incr_unmasks"} -> "U"
-               [] a \in {"system", "profile_set"} -> "K" [] a = "provided" -> "V" [] OTHER -> "-"
+               [] a \in {"system", "profile_set"} -> "K" [] a = "provided" -> "V" [] a = "accept_keywords" -> "A" [] OTHER -> "-"
 
 Unread == [st |-> "unread", v |-> <<>>]
 KeysOf(T) == (DOMAIN T.nodes) \X BOOLEAN \X Files
 OnDisk(T, k) == T.nodes[k[1]].f[k[3]]
 NoObj == [u \in {} |-> 0]
 \* the state: disk = T; seen: what each instance has read; got[o]: the attributes object o holds; leaf[o]
-Fresh(T, Objs) == [disk |-> T, seen |-> [k \in KeysOf(T) |-> Unread], open |-> {},
+\* resolved: the instances whose `parents` have been instantiated (ProfileNode.parents reports the parent lines
+\* that name nothing once per instance; ProfileStack.stack reports them once per path and per object)
+Fresh(T, Objs) == [disk |-> T, seen |-> [k \in KeysOf(T) |-> Unread], open |-> {}, resolved |-> {},
                    got |-> [o \in Objs |-> NoObj], leaf |-> [o \in Objs |-> Root]]
 
 \* what a read of key k returns now: what the instance holds, else the disk
-ViewOf(s) == [k \in KeysOf(s.disk) |-> IF s.seen[k].st # "unread" THEN s.seen[k] ELSE OnDisk(s.disk, k)]
-FlatOf(T, C) == [pset |-> T.pset, eapi |-> [n \in DOMAIN T.nodes |-> T.nodes[n].eapi], c |-> C]
+ViewOf(s) == TLCEval([k \in KeysOf(s.disk) |-> IF s.seen[k].st # "unread" THEN s.seen[k] ELSE OnDisk(s.disk, k)])
+FlatOf(T, C) == TLCEval([pset |-> T.pset, eapi |-> [n \in DOMAIN T.nodes |-> T.nodes[n].eapi], c |-> C])
 GDisk(T) == FlatOf(T, [n \in DOMAIN T.nodes |-> T.nodes[n].f])
 \* through the instances of ProfileStack.stack / through those of the default_env recursion of `leaf`
 EnvStrict(T, n, leaf) == IF n = leaf THEN T.strict ELSE TRUE
@@ -194,8 +204,10 @@ GStack(T, Vw) == FlatOf(T, [n \in DOMAIN T.nodes |-> [f \in Files |-> Vw[<<n, T.
 GEnv(T, Vw, leaf) == FlatOf(T, [n \in DOMAIN T.nodes |-> [f \in Files |-> Vw[<<n, EnvStrict(T, n, leaf), f>>]]])
 
 \* a read of this content through this instance fails
-BadRead(k, c) == \/ c.st = "syntax" /\ k[3] \in SyntaxFiles
-                 \/ c.st = "dir" /\ (k[2] \/ k[3] \notin Recursable)
+\* (package.provided of an EAPI 7+ node is not opened at all: the instance caches "nothing provided")
+BadRead(T, k, c) == /\ ~(k[3] = "V" /\ T.nodes[k[1]].eapi = "7")
+                    /\ \/ c.st = "syntax" /\ k[3] \in SyntaxFiles
+                       \/ c.st = "dir" /\ (k[2] \/ k[3] \notin Recursable)
 
 \* the reads an attribute makes, in order (already-held keys cost nothing and are harmless here)
 RECURSIVE StackReads(_, _, _)
@@ -214,8 +226,7 @@ ReadsOf(a, T, Vw, leaf) ==
   IF a \in EnvAttrs THEN EnvReads(GEnv(T, Vw, leaf), T, leaf, leaf)
   ELSE LET G == GStack(T, Vw)
            lin == Lin(G, leaf)
-           nodes == CASE a \in {"masks", "unmasks"} -> <<Root>> \o lin
-                      [] a = "provided" -> Keep(lin, LAMBDA n : G.eapi[n] # "7")
+           nodes == CASE a \in {"masks", "unmasks", "accept_keywords"} -> <<Root>> \o lin
                       [] a = "stack" -> <<>>
                       [] OTHER -> lin
        IN StackReads(G, T.strict, leaf) \o [k \in DOMAIN nodes |-> <<nodes[k], T.strict, FileOf(a)>>]
@@ -225,6 +236,7 @@ ValueOf(a, T, Vw, leaf) ==
   LET G == GStack(T, Vw) IN
   CASE a = "stack" -> FullStack(G, leaf)
     [] a \in {"system", "profile_set", "masks", "unmasks", "provided"} -> Folded(G, leaf, a)
+    [] a = "accept_keywords" -> KeywordsOver(G, FullStack(G, leaf))
     [] a = "incr_masks" -> IncrPairs(G, leaf, "masks")
     [] a = "incr_unmasks" -> IncrPairs(G, leaf, "unmasks")
     [] a = "default_env" -> DefaultEnv(GEnv(T, Vw, leaf), leaf)
@@ -237,8 +249,18 @@ FillsOf(a) == CASE a = "use" -> {"use", "use_expand", "default_env"}
                 [] OTHER -> {a}
 
 Res(s, ret) == [s |-> s, ret |-> ret]
-Good(v) == [raised |-> FALSE, node |-> "-", file |-> "-", val |-> v]
-Fail(k) == [raised |-> TRUE, node |-> k[1], file |-> k[3], val |-> <<>>]
+Good(v, logs) == [raised |-> FALSE, node |-> "-", file |-> "-", val |-> v, logs |-> logs]
+Fail(k, logs) == [raised |-> TRUE, node |-> k[1], file |-> k[3], val |-> <<>>, logs |-> logs]
+MissingOf(G, n) == LET ps == ParentsOf(G, n)
+                       f[j \in 0..Len(ps)] == IF j = 0 THEN <<>>
+                                              ELSE IF Present(G, ps[j]) THEN f[j - 1]
+                                              ELSE Append(f[j - 1], [node |-> n, line |-> j, text |-> ps[j]])
+                   IN f[Len(ps)]
+\* the reports of the default_env recursion: the instances it resolves for the first time, in the order it meets them
+EnvLogs(G, rs, stop, resolved) ==
+  LET fresh == {i \in 1..(stop - 1) : rs[i][3] = "P" /\ <<rs[i][1], rs[i][2]>> \notin resolved /\ \A j \in 1..(i - 1) : rs[j] # rs[i]}
+      f[i \in 0..(stop - 1)] == IF i = 0 THEN <<>> ELSE IF i \in fresh THEN f[i - 1] \o MissingOf(G, rs[i][1]) ELSE f[i - 1]
+  IN f[stop - 1]
 FirstIn(S) == CHOOSE i \in S : \A j \in S : i <= j
 Filled(g, names, T, Vw, leaf) == [x \in DOMAIN g \cup names |-> IF x \in DOMAIN g THEN g[x] ELSE ValueOf(x, T, Vw, leaf)]
 
@@ -250,36 +272,36 @@ DoEdit(s, n, file, c) == [s EXCEPT !.disk.nodes[n].f[file] = c]
 
 \* nodeCache = FALSE is the broken design in which node instances forget what they read
 DoGetWith(s, o, a, nodeCache) ==
-  IF a \in DOMAIN s.got[o] THEN Res(s, Good(s.got[o][a]))
+  IF a \in DOMAIN s.got[o] THEN Res(s, Good(s.got[o][a], <<>>))
   ELSE LET T == s.disk
            leaf == s.leaf[o]
            Vw == ViewOf(s)
            rs == ReadsOf(a, T, Vw, leaf)
-           bad == {i \in DOMAIN rs : BadRead(rs[i], Vw[rs[i]])}
+           bad == {i \in DOMAIN rs : BadRead(T, rs[i], Vw[rs[i]])}
            stop == IF bad = {} THEN Len(rs) + 1 ELSE FirstIn(bad)
            done == {rs[i] : i \in 1..(stop - 1)}
            seen2 == IF nodeCache THEN [k \in KeysOf(T) |-> IF k \in done THEN Vw[k] ELSE s.seen[k]] ELSE s.seen
            \* the stack is complete before the first file of the attribute is opened
            fills == IF bad = {} THEN FillsOf(a) ELSE IF a \in StackAttrs THEN {"stack"} ELSE {}
-           s2 == [s EXCEPT !.seen = seen2, !.got[o] = Filled(@, fills, T, Vw, leaf)]
-       IN IF bad = {} THEN Res(s2, Good(s2.got[o][a])) ELSE Res(s2, Fail(rs[stop]))
+           logs == IF a \in EnvAttrs THEN EnvLogs(GEnv(T, Vw, leaf), rs, stop, s.resolved)
+                   ELSE IF "stack" \in DOMAIN s.got[o] THEN <<>> ELSE BadParents(GStack(T, Vw), leaf)
+           res2 == IF a \in EnvAttrs THEN s.resolved \cup {<<k[1], k[2]>> : k \in {x \in done : x[3] = "P"}} ELSE s.resolved
+           s2 == [s EXCEPT !.seen = seen2, !.resolved = res2, !.got[o] = Filled(@, fills, T, Vw, leaf)]
+       IN IF bad = {} THEN Res(s2, Good(s2.got[o][a], logs)) ELSE Res(s2, Fail(rs[stop], logs))
 DoGet(s, o, a) == DoGetWith(s, o, a, TRUE)
-
-\* the log of a call that builds the stack: the parent lines that name nothing
-LogOf(s, o, a) == IF a \in StackAttrs /\ "stack" \notin DOMAIN s.got[o]
-                  THEN BadParents(GStack(s.disk, ViewOf(s)), s.leaf[o]) ELSE <<>>
 
 \* every profile object is released: nothing survives (weakCache = FALSE is the broken design)
 DoDropAllWith(s, weakCache) ==
-  [s EXCEPT !.open = {}, !.got = [o \in DOMAIN s.got |-> NoObj],
+  [s EXCEPT !.open = {}, !.got = [o \in DOMAIN s.got |-> NoObj], !.resolved = IF weakCache THEN {} ELSE @,
             !.seen = IF weakCache THEN [k \in KeysOf(s.disk) |-> Unread] ELSE @]
 DoDropAll(s) == DoDropAllWith(s, TRUE)
 
 (* ---- properties of a state ---- *)
 \* every value held by a live object is the value of ONE virtual tree: each file as first read
-Coherent(s) == \A o \in s.open : \A a \in DOMAIN s.got[o] : s.got[o][a] = ValueOf(a, s.disk, ViewOf(s), s.leaf[o])
+Coherent(s) == LET Vw == ViewOf(s) IN
+               \A o \in s.open : \A a \in DOMAIN s.got[o] : s.got[o][a] = ValueOf(a, s.disk, Vw, s.leaf[o])
 \* nothing unreadable is ever held
-SeenReadable(s) == \A k \in KeysOf(s.disk) : s.seen[k].st # "unread" => ~BadRead(k, s.seen[k])
+SeenReadable(s) == \A k \in KeysOf(s.disk) : s.seen[k].st # "unread" => ~BadRead(s.disk, k, s.seen[k])
 \* without live objects nothing is held
 NothingHeld(s) == s.open = {} => \A k \in KeysOf(s.disk) : s.seen[k] = Unread
 ReadKeys(s) == {k \in KeysOf(s.disk) : s.seen[k].st # "unread"}
